@@ -81,20 +81,25 @@ below them is decoded; the decoder's message after any subset of members is the 
 
 A j5 `Any` (`.any false`) is representable when it carries `j5_json` only, the bytes being the
 compact rendering of a complete JSON value of depth ≤ 10000 which the specification-side oracle
-`O.chunk` recognises; with `WithProtoToAny` the decoder additionally stores the expanded proto
-content, so the exact round trip is stated for the codec without it (`hA`: mode `n`, or no `Any` in
-the environment at all — then every mode).
+`O.chunk` recognises; a **protobuf `Any`** (`.any true`) when its type URL is
+`type.googleapis.com/<name>` for a name the resolver knows and its content is a non-empty
+representable message of the resolved root (the wire bytes are represented by what they unmarshal
+to). Which codec can decode them is a hypothesis **per value**: `c.canDecode m` (`modeOk`) — every
+j5 `Any` in `m` needs the codec without `WithProtoToAny` (with it the decoder also stores the
+expanded content), every protobuf `Any` needs `WithProtoToAny`, fewer than 100 enclosing `Any`
+values and a message nested at most 1664 deep; a message without `Any` values satisfies it for
+every codec (`C01_canDecode_of_noAny`), and environments that declare both kinds of `Any` are
+covered as long as the message populates one kind.
 
-Missing for the full statement: `google.protobuf.Any` and `Any` with proto content (round trip only
-up to re-marshalling, needs a resolver / marshal abstraction), mode `WithProtoToAny` for `Any`; an
-exposed oneof inlined from a flattened object. -/
+Missing for the full statement: `Any` with both kinds populated in one message, j5 `Any` under
+`WithProtoToAny`; an exposed oneof inlined from a flattened object. -/
 theorem C01_roundtrip_tree_partial (c : Cfg) (hs : c.env.flat = true) (L : OracleLaws c.O)
-    (hA : c.protoToAny = false ∨ c.env.noJ5Any = true)
     (root : String) (m : Fields) (t : PTree)
     (hok : valOk c.env c.O (.object root) (.msg m) = true ∨
       valOk c.env c.O (.oneof root) (.msg m) = true)
+    (hM : c.canDecode m)
     (henc : encodeTree c.env c.O root (.msg m) = .ok t) : decRootTree c root t = .ok m := by
-  obtain ⟨t', ht', hdec⟩ := roundtrip_tree_flat c hs L hA root m hok
+  obtain ⟨t', ht', hdec⟩ := roundtrip_tree_flat c hs L root m hok hM
   rw [henc] at ht'; cases ht'; exact hdec
 
 /-- **Byte level (`_partial`)**: the same statement on the bytes `Codec.ProtoToJSON` returns and
@@ -104,12 +109,13 @@ environments that have `Any` fields — `ChunkLaws`:
 what `O.chunk` recognises is compact JSON as the codec writes it (`PTree.Enc`); the `j5_json` of an
 `Any` is spliced into the output verbatim and read back as part of the document. -/
 theorem C01_roundtrip_bytes_partial (c : Cfg) (hs : c.env.flat = true) (L : OracleLaws c.O)
-    (hC : c.env.noAny = true ∨ ChunkLaws c.O) (hA : c.protoToAny = false ∨ c.env.noJ5Any = true)
+    (hC : c.env.noAny = true ∨ ChunkLaws c.O)
     (root : String) (m : Fields) (bs : Bytes)
     (hok : valOk c.env c.O (.object root) (.msg m) = true ∨
       valOk c.env c.O (.oneof root) (.msg m) = true)
+    (hM : c.canDecode m)
     (henc : encodeBytes c.env c.O root (.msg m) = .ok bs) : decodeBytes c root bs = .ok m := by
-  obtain ⟨bs', hbs', hdec⟩ := roundtrip_bytes c hs L hC hA root m hok
+  obtain ⟨bs', hbs', hdec⟩ := roundtrip_bytes c hs L hC root m hok hM
   rw [henc] at hbs'; cases hbs'; exact hdec
 
 /-- **C01 for flat environments (`_partial` only in the class of schemas)**: encoding any
@@ -117,20 +123,21 @@ representable message succeeds, and decoding the bytes into a fresh message of t
 yields exactly the original message. Unbounded in message size, nesting depth, number of
 properties, string contents and integer values.
 
-Missing for `C01_roundtrip_full`: `google.protobuf.Any`, `Any` values with proto content and
-`Any` under `WithProtoToAny` (equal only up to re-marshalling), an exposed oneof inlined from a
-flattened object (all modelled and validated against Go by the correspondence, not yet covered by
+Missing for `C01_roundtrip_full`: j5 `Any` values with proto content or under `WithProtoToAny`
+(equal only up to the expanded content), messages that populate both kinds of `Any`, an exposed
+oneof inlined from a flattened object (all modelled and validated against Go by the correspondence, not yet covered by
 this proof), "an empty flattened sub-object is treated as absent" is stated separately
 (`C01_roundtrip_canon_partial`, `C01_roundtrip_same_partial`: `valOk` describes the canonical forms), and decimals that are
 not in `decimal.String()` normal form (they round-trip up to numeric equality:
 `C01_scalar_roundtrip`). -/
 theorem C01_roundtrip_partial (c : Cfg) (hs : c.env.flat = true) (L : OracleLaws c.O)
-    (hC : c.env.noAny = true ∨ ChunkLaws c.O) (hA : c.protoToAny = false ∨ c.env.noJ5Any = true)
+    (hC : c.env.noAny = true ∨ ChunkLaws c.O)
     (root : String) (m : Fields)
     (hok : valOk c.env c.O (.object root) (.msg m) = true ∨
-      valOk c.env c.O (.oneof root) (.msg m) = true) :
+      valOk c.env c.O (.oneof root) (.msg m) = true)
+    (hM : c.canDecode m) :
     ∃ bs, encodeBytes c.env c.O root (.msg m) = .ok bs ∧ decodeBytes c root bs = .ok m :=
-  roundtrip_bytes c hs L hC hA root m hok
+  roundtrip_bytes c hs L hC root m hok hM
 
 /-- **"an empty flattened sub-object is treated as absent"** (the property's own clause), general
 form: let `m` be ANY message of a flat environment and `m'` a representable message that holds
@@ -142,15 +149,16 @@ flattened sub-messages that hold no leaf: they may be present and empty in `m` a
 reads a message only through the leaves of its properties: `EQ_all`), and `Codec.JSONToProto` maps
 the bytes to `m'`. (`hd`: `m'` is not nested deeper than `m`.) -/
 theorem C01_roundtrip_same_partial (c : Cfg) (hs : c.env.flat = true) (L : OracleLaws c.O)
-    (hC : c.env.noAny = true ∨ ChunkLaws c.O) (hA : c.protoToAny = false ∨ c.env.noJ5Any = true)
+    (hC : c.env.noAny = true ∨ ChunkLaws c.O)
     (root : String) (m m' : Fields)
     (hsame : Same c.env (.object root) (.msg m) (.msg m') ∨
       Same c.env (.oneof root) (.msg m) (.msg m'))
     (hok : valOk c.env c.O (.object root) (.msg m') = true ∨
       valOk c.env c.O (.oneof root) (.msg m') = true)
-    (hd : depthFields m' ≤ depthFields m) :
+    (hd : depthFields m' ≤ depthFields m)
+    (hM : modeOkF c.protoToAny (6 * (depthFields m + 1) + 9) c.anyDepth m' = true) :
     ∃ bs, encodeBytes c.env c.O root (.msg m) = .ok bs ∧ decodeBytes c root bs = .ok m' :=
-  roundtrip_same c hs L hC hA root m m' hsame hok hd
+  roundtrip_same c hs L hC root m m' hsame hok hd hM
 
 /-- **… with the canonical form written out** (`canonFlat`: the message restricted to the leaves of
 its properties — flattened sub-messages that hold no leaf are dropped, through nested flattened
@@ -162,22 +170,32 @@ canonical forms), so this is the statement for the messages `C01_roundtrip_parti
 Leaf values that themselves contain empty flattened sub-messages are covered by
 `C01_roundtrip_same_partial`, not by this concrete form. -/
 theorem C01_roundtrip_canon_partial (c : Cfg) (hs : c.env.flat = true) (L : OracleLaws c.O)
-    (hC : c.env.noAny = true ∨ ChunkLaws c.O) (hA : c.protoToAny = false ∨ c.env.noJ5Any = true)
+    (hC : c.env.noAny = true ∨ ChunkLaws c.O)
     (root : String) (props : List PropDef) (hfind : c.env.find root = some (.object props))
     (m : Fields) (hsort : asorted m = true) (hdeep : sortedDeepF m = true)
-    (hok : valOk c.env c.O (.object root) (.msg (canonFlat c.env props m)) = true) :
+    (hok : valOk c.env c.O (.object root) (.msg (canonFlat c.env props m)) = true)
+    (hM : modeOkF c.protoToAny (6 * (depthFields m + 1) + 9) c.anyDepth
+      (canonFlat c.env props m) = true) :
     ∃ bs, encodeBytes c.env c.O root (.msg m) = .ok bs ∧
       decodeBytes c root bs = .ok (canonFlat c.env props m) :=
-  roundtrip_canon c hs L hC hA root props hfind m
-    (fun e _ => sortedAlong_of_deep e.1 m hsort hdeep) hok
+  roundtrip_canon c hs L hC root props hfind m
+    (fun e _ => sortedAlong_of_deep e.1 m hsort hdeep) hok hM
+
+/-- for an environment without `Any` fields the hypothesis `canDecode` of the round-trip theorems
+is void: every representable message can be decoded by every codec -/
+theorem C01_canDecode_of_noAny (c : Cfg) (hna : c.env.noAny = true) (root : String) (m : Fields)
+    (hok : valOk c.env c.O (.object root) (.msg m) = true ∨
+      valOk c.env c.O (.oneof root) (.msg m) = true) : c.canDecode m :=
+  canDecode_of_noAny c hna root m hok
 
 /-- encoding alone (first half of the statement) -/
 theorem C01_encode_succeeds_partial (c : Cfg) (hs : c.env.flat = true) (L : OracleLaws c.O)
     (hC : c.env.noAny = true ∨ ChunkLaws c.O) (root : String) (m : Fields)
     (hok : valOk c.env c.O (.object root) (.msg m) = true ∨
-      valOk c.env c.O (.oneof root) (.msg m) = true) :
+      valOk c.env c.O (.oneof root) (.msg m) = true)
+    (hM : ∃ mode, modeOkF mode (6 * (depthFields m + 1) + 9) 0 m = true) :
     ∃ bs, encodeBytes c.env c.O root (.msg m) = .ok bs :=
-  encode_ok c hs L hC root m hok
+  encode_ok c hs L hC root m hok hM
 
 /-- **`Any` (j5, one property, tree level)**: a `j5.types.any.v1.Any` holding `j5_json = V.render`
 for a complete JSON value `V` of nesting depth ≤ 10000 and a valid UTF-8 type name is written as
@@ -203,8 +221,7 @@ theorem C01_any_j5_partial (c : Cfg) (hmode : c.protoToAny = false) (props : Lis
     dec_any_j5 c hmode props p st tn tlit nlit vlit tv hf hp hs hgb hc hd⟩
 
 /-- **`google.protobuf.Any` with `WithProtoToAny` (one property, both directions, `_partial`)**:
-for a codec built `WithProtoToAny` over a flat environment that has no j5 `Any` field (`hj`; protobuf
-`Any` fields are allowed), at a position not yet nested 100 `Any` values deep (`hdepth`, the
+for a codec built `WithProtoToAny` over a flat environment, at a position not yet nested 100 `Any` values deep (`hdepth`, the
 decoder's `maxAnyDepth`): a protobuf `Any` whose type URL is `type.googleapis.com/<name>` for a
 name the resolver knows and whose content is a non-empty representable message `fs` of the
 resolved root
@@ -221,19 +238,19 @@ The wire bytes of the content are represented in the model by what they unmarsha
 inner`; trusted base: "proto.Marshal / Unmarshal for the bytes inside Any values"), so
 `unmarshal (marshal m) = m` is part of the modelling assumption, not a hypothesis here.
 
-Not yet part of `C01_roundtrip_partial` (whole messages with protobuf `Any` properties): that needs
-the induction `RTP` itself quantified over `Cfg.anyDepth` (this theorem uses the finished induction
-at `anyDepth + 1`, which the induction cannot do for itself) with `depth + anyDepth ≤ 100` carried
-through it. -/
+This is the protobuf-`Any` step of `C01_roundtrip_partial` in isolation (whole messages that
+populate protobuf `Any` properties, nested or not, are covered there: the induction `RTP` is
+proved for all codec configurations at once, so its `Any` case can use the facts at
+`anyDepth + 1`; `hMi`: the codec at `anyDepth + 1` can decode the content). -/
 theorem C01_any_pb_partial (c : Cfg) (hs : c.env.flat = true) (L : OracleLaws c.O)
-    (hC : c.env.noAny = true ∨ ChunkLaws c.O)
-    (hmode : c.protoToAny = true) (hj : c.env.noJ5Any = true) (hdepth : c.anyDepth < maxAnyDepth)
+    (hmode : c.protoToAny = true) (hdepth : c.anyDepth < maxAnyDepth)
     (props : List PropDef) (p : PropDef) (st : PS) (tn val : Bytes) (iroot : String) (fs : Fields)
     (hf : p.field = .any true) (hp : p.path ≠ []) (hseen : p.jsonName ∉ st.seen)
     (hgb : groupBusy props p st.m = false) (hu : isValidUtf8 tn = true)
     (hres : c.env.resolve tn = some iroot) (hne : fs ≠ [])
     (hok : valOk c.env c.O (.object iroot) (.msg fs) = true ∨
       valOk c.env c.O (.oneof iroot) (.msg fs) = true)
+    (hMi : modeOkF c.protoToAny (6 * (depthFields fs + 1) + 9) (c.anyDepth + 1) fs = true)
     (hD : 6 * (depthFields fs + 1) + 10 ≤ 10000) :
     ∃ t, encValue c.env c.O (6 * (depthFields fs + 1) + 9 + 2) (.any true)
           (.anyPb (anyPrefix ++ tn) val .inn iroot (.msg fs)) = .ok t ∧
@@ -241,8 +258,8 @@ theorem C01_any_pb_partial (c : Cfg) (hs : c.env.flat = true) (L : OracleLaws c.
       decProp c props p t st =
         .ok { m := updPath props p (some (.anyPb (anyPrefixB ++ tn) [] .inn iroot (.msg fs))) st.m,
               seen := p.jsonName :: st.seen } := by
-  obtain ⟨t, he, hd⟩ := any_pb_roundtrip' c hs L hC hmode hj hdepth props p st tn val iroot fs hf hp
-    hseen hgb hu hres hne hok hD
+  obtain ⟨t, he, hd⟩ := any_pb_roundtrip' c hs L hmode hdepth props p st tn val iroot fs hf hp
+    hseen hgb hu hres hne hok hMi hD
   refine ⟨t, he, ?_, hd⟩
   simp only [Wire.anyTypeName]
   exact congrArg some (trimPrefix_append _ tn)
@@ -251,7 +268,7 @@ theorem C01_any_pb_partial (c : Cfg) (hs : c.env.flat = true) (L : OracleLaws c.
 the encoder builds with fuel `f` is nested at most `f` deep -/
 theorem C01_encoder_tree_depth (env : Env) (O : Oracle) (f : Nat) (root : String) (v : PVal)
     (t : PTree) (hn : v.noJ5 = true) (h : encRoot env O f root v = .ok t) : t.depth ≤ f :=
-  (TD_all env O f).root root v t hn h
+  ((TD_all env O f).root root v t hn h).1
 
 /-! ## Non-vacuity -/
 
@@ -363,8 +380,6 @@ example : ChunkLaws anyOracle := by
   · cases h
 /-- the real oracles (the driver's: `chunk` is never set) satisfy `ChunkLaws` trivially -/
 example : ChunkLaws toyOracle := chunkLaws_default _ rfl
-example : (({ env := sampleAnyEnv, O := anyOracle } : Cfg).protoToAny = false ∨
-    sampleAnyEnv.noJ5Any = true) := Or.inl rfl
 
 /-- **the codec's own output is a recognisable chunk**: for a representable message of a flat
 environment the bytes `Codec.ProtoToJSON` returns are the rendering of an encoder tree — exactly
@@ -375,10 +390,11 @@ affected), as long as the nesting depth stays ≤ 10000 (`maxNestingDepth` of `e
 theorem C01_own_output_is_chunk (c : Cfg) (hs : c.env.flat = true) (L : OracleLaws c.O)
     (hC : c.env.noAny = true ∨ ChunkLaws c.O) (root : String) (m : Fields)
     (hok : valOk c.env c.O (.object root) (.msg m) = true ∨
-      valOk c.env c.O (.oneof root) (.msg m) = true) :
+      valOk c.env c.O (.oneof root) (.msg m) = true)
+    (hM : ∃ mode, modeOkF mode (6 * (depthFields m + 1) + 9) 0 m = true) :
     ∃ (bs : Bytes) (V : PTree), encodeBytes c.env c.O root (.msg m) = .ok bs ∧ V.Enc ∧ V.render = bs ∧
       V.complete = true := by
-  obtain ⟨bs, hbs⟩ := encode_ok c hs L hC root m hok
+  obtain ⟨bs, hbs⟩ := encode_ok c hs L hC root m hok hM
   have hch : (PVal.msg m).chunksOk c.O = true := by
     rcases hok with hok | hok
     · exact valOk_chunksOk _ _ _ _ hok
@@ -423,6 +439,19 @@ def samplePbEnv : Env :=
     res := [(ascii "t.v1.I", "t.I")] }
 
 example : samplePbEnv.flat = true ∧ samplePbEnv.noJ5Any = true ∧ samplePbEnv.noAny = false := by decide
+/-- a message that populates the protobuf `Any` (content `{id: "x"}` of `t.v1.I`) -/
+def samplePbMsg : Fields :=
+  [(2, .anyPb (anyPrefixB ++ ascii "t.v1.I") [] .inn "t.I" (.msg [(1, .str (ascii "x"))]))]
+
+example : valOk samplePbEnv toyOracle (.object "t.P") (.msg samplePbMsg) = true := by decide
+/-- the codec `WithProtoToAny` can decode it, the codec without cannot -/
+example : ({ env := samplePbEnv, O := toyOracle, protoToAny := true } : Cfg).canDecode samplePbMsg := by
+  decide
+example : ¬ ({ env := samplePbEnv, O := toyOracle } : Cfg).canDecode samplePbMsg := by decide
+/-- the message with j5 `Any` values: the codec without `WithProtoToAny` -/
+example : ({ env := sampleAnyEnv, O := anyOracle } : Cfg).canDecode sampleAnyMsg := by decide
+example : ∃ mode, modeOkF mode (6 * (depthFields samplePbMsg + 1) + 9) 0 samplePbMsg = true :=
+  ⟨true, by decide⟩
 example : samplePbEnv.resolve (ascii "t.v1.I") = some "t.I" := by decide
 example : valOk samplePbEnv toyOracle (.object "t.I") (.msg [(1, .str (ascii "x"))]) = true := by decide
 example : (({ env := samplePbEnv, O := toyOracle, protoToAny := true } : Cfg).anyDepth < maxAnyDepth) := by
